@@ -16,6 +16,7 @@ import (
 	"sync"
 	"time"
 
+	"flamingo.me/flamingo/v3/framework/flamingo"
 	"flamingo.me/pugtemplate/pugjs"
 )
 
@@ -46,6 +47,21 @@ import (
 // Mode "single": exactly one render in a process of its own (own map hash seeds, nothing
 // rendered before) over one of the three directory layouts; the parent starts `fresh` of them
 // per case.
+// VALUES OF THE ENGINE'S OWN OBJECT MODEL IN THE DATA (tags "obj", "objs", "omap"): what the caller got
+// from pugjs.Convert (*pugjs.Array, *pugjs.Map, pugjs.String, pugjs.Number, pugjs.Bool, pugjs.Nil),
+// lists []pugjs.Object and maps map[string]pugjs.Object of such values, anywhere in the data.  The
+// caller keeps them: they are part of the deep comparison with the pristine copy, and the same
+// objects are handed to every render of the pair.
+// ENGINES WITH OTHER FUNCTION TABLES / TEMPLATE SETS IN THE SAME PROCESS: the engines of the pair share
+// one function table (the standard functions + `funcs`: zero-argument functions returning constants,
+// used by templates like variables).  `aliens` are further engine instances of the process with
+// function tables and template directories of their own (the same files, or other files under the
+// same names), created and loaded before the pair's first engine exists or right before the
+// history; requests of the history / the late phase with on >= 100 are rendered by them.  Every
+// such render is repeated by the parent in a process that holds only that engine and renders only
+// that request: the two outputs are reported side by side and must be equal.
+// An engine that fails to load its templates is not an error of the harness: its renders are
+// reported as class "load_error".
 
 // data built from Go slices / maps / pointers / structs
 type c07Rec struct {
@@ -62,6 +78,59 @@ type c07Pair struct {
 	Value interface{}
 }
 
+// A slice in the caller's data is a window into an array the caller owns: the slices the harness builds have
+// 0-2 elements of spare capacity behind their end, filled with a mark.  c07Spare collects what stands there
+// (for every slice reachable through maps, slices, pointers, interfaces and exported struct fields), so that
+// "the data is untouched" covers the caller's whole arrays, not only the elements inside the windows.
+const c07SpareMark = "\x00spare"
+
+func c07SpareCap(n int) int { return n % 3 }
+
+func c07Spare(v interface{}) []interface{} {
+	var acc []interface{}
+	var walk func(x reflect.Value, depth int)
+	walk = func(x reflect.Value, depth int) {
+		if !x.IsValid() || depth > 40 {
+			return
+		}
+		switch x.Kind() {
+		case reflect.Interface, reflect.Ptr:
+			if !x.IsNil() {
+				walk(x.Elem(), depth+1)
+			}
+		case reflect.Slice:
+			if x.Cap() > x.Len() && x.CanInterface() {
+				full := x.Slice3(0, x.Cap(), x.Cap())
+				for i := x.Len(); i < x.Cap(); i++ {
+					acc = append(acc, full.Index(i).Interface())
+				}
+			}
+			for i := 0; i < x.Len(); i++ {
+				walk(x.Index(i), depth+1)
+			}
+		case reflect.Map:
+			keys := x.MapKeys()
+			sort.Slice(keys, func(i, j int) bool { return fmt.Sprint(keys[i].Interface()) < fmt.Sprint(keys[j].Interface()) })
+			for _, k := range keys {
+				walk(x.MapIndex(k), depth+1)
+			}
+		case reflect.Struct:
+			for i := 0; i < x.NumField(); i++ {
+				if x.Type().Field(i).PkgPath == "" {
+					walk(x.Field(i), depth+1)
+				}
+			}
+		}
+	}
+	walk(reflect.ValueOf(v), 0)
+	return acc
+}
+
+// c07Same: the caller's data is what the pristine copy is - inside the windows and behind them
+func c07Same(data, pristine interface{}) bool {
+	return reflect.DeepEqual(data, pristine) && reflect.DeepEqual(c07Spare(data), c07Spare(pristine))
+}
+
 func buildData07(raw json.RawMessage) (interface{}, error) {
 	var tv tval
 	if err := json.Unmarshal(raw, &tv); err != nil {
@@ -75,7 +144,7 @@ func buildData07(raw json.RawMessage) (interface{}, error) {
 		if err := json.Unmarshal(tv.V, &l); err != nil {
 			return nil, err
 		}
-		res := make([]interface{}, len(l))
+		res := make([]interface{}, len(l), len(l)+c07SpareCap(len(l)))
 		for i, x := range l {
 			v, err := buildData07(x)
 			if err != nil {
@@ -83,15 +152,21 @@ func buildData07(raw json.RawMessage) (interface{}, error) {
 			}
 			res[i] = v
 		}
+		for i := len(l); i < cap(res); i++ {
+			res[:cap(res)][i] = c07SpareMark
+		}
 		return res, nil
 	case "strs": // []string
 		var l []string
 		if err := json.Unmarshal(tv.V, &l); err != nil {
 			return nil, err
 		}
-		res := make([]string, len(l))
+		res := make([]string, len(l), len(l)+c07SpareCap(len(l)))
 		for i, x := range l {
 			res[i] = unhx(x)
+		}
+		for i := len(l); i < cap(res); i++ {
+			res[:cap(res)][i] = c07SpareMark
 		}
 		return res, nil
 	case "ints": // []int
@@ -99,10 +174,12 @@ func buildData07(raw json.RawMessage) (interface{}, error) {
 		if err := json.Unmarshal(tv.V, &l); err != nil {
 			return nil, err
 		}
-		if l == nil {
-			l = []int{}
+		res := make([]int, len(l), len(l)+c07SpareCap(len(l)))
+		copy(res, l)
+		for i := len(l); i < cap(res); i++ {
+			res[:cap(res)][i] = -777
 		}
-		return l, nil
+		return res, nil
 	case "map", "smap", "imap":
 		var l [][2]json.RawMessage
 		if err := json.Unmarshal(tv.V, &l); err != nil {
@@ -202,8 +279,51 @@ func buildData07(raw json.RawMessage) (interface{}, error) {
 			return &x, nil
 		case []string:
 			return &x, nil
+		case []pugjs.Object:
+			return &x, nil
 		}
 		return nil, fmt.Errorf("ptr to unsupported value %T", v)
+	case "obj": // what the caller got from pugjs.Convert for the described Go value
+		v, err := buildData07(tv.V)
+		if err != nil {
+			return nil, err
+		}
+		return pugjs.Convert(v), nil
+	case "objs": // []pugjs.Object
+		var l []json.RawMessage
+		if err := json.Unmarshal(tv.V, &l); err != nil {
+			return nil, err
+		}
+		res := make([]pugjs.Object, len(l), len(l)+c07SpareCap(len(l)))
+		for i, x := range l {
+			v, err := buildData07(x)
+			if err != nil {
+				return nil, err
+			}
+			res[i] = pugjs.Convert(v)
+		}
+		for i := len(l); i < cap(res); i++ {
+			res[:cap(res)][i] = pugjs.String(c07SpareMark)
+		}
+		return res, nil
+	case "omap": // map[string]pugjs.Object
+		var l [][2]json.RawMessage
+		if err := json.Unmarshal(tv.V, &l); err != nil {
+			return nil, err
+		}
+		m := make(map[string]pugjs.Object, len(l))
+		for _, kv := range l {
+			var k string
+			if err := json.Unmarshal(kv[0], &k); err != nil {
+				return nil, err
+			}
+			v, err := buildData07(kv[1])
+			if err != nil {
+				return nil, err
+			}
+			m[unhx(k)] = pugjs.Convert(v)
+		}
+		return m, nil
 	}
 	return nil, fmt.Errorf("bad data tag %q", tv.T)
 }
@@ -213,7 +333,7 @@ type c07Req struct {
 	Render string          `json:"render"`
 	Data   json.RawMessage `json:"data"`
 	Pair   bool            `json:"pair"` // the case's own (template, data) pair: Render / Data are ignored
-	On     int             `json:"on"`   // which of the process's engine instances runs this render
+	On     int             `json:"on"`   // which of the process's engine instances runs this render; >= 100: alien engine On-100
 	// what the caller does with the io.Reader that Render returns:
 	// 0 = read it to the end at once; 1 = keep it unread while the process goes on rendering and read it when
 	// everything else is done; 2 = read the first Pre bytes at once and the rest when everything else is done
@@ -222,19 +342,60 @@ type c07Req struct {
 }
 
 type c07Case struct {
-	Files    map[string]string `json:"files"`    // rendered template + the templates of the history (hex name -> hex AST)
-	Siblings map[string]string `json:"siblings"` // templates that are never rendered (hex relative path, may contain directories)
-	Render   string            `json:"render"`
-	Data     json.RawMessage   `json:"data"`
-	Prefix   []c07Req          `json:"prefix"`
-	Late     []c07Req          `json:"late"`       // renders after r7, most of them kept unread
-	HoldR0   bool              `json:"hold_first"` // one more render of the pair right after r0, read last of all
-	ReadSeed int               `json:"read_seed"`  // order in which the kept readers are read: 0 oldest first, 1 newest first, else a permutation
-	ReadStep int               `json:"read_step"`  // > 0: the kept readers are read round-robin, ReadStep bytes at a time
-	TFirst   bool              `json:"t_first"`    // main layout: the rendered template is listed before its siblings (the other layout: after)
-	Single   bool              `json:"single"`
-	Layout   int               `json:"layout"` // single mode: 0 main layout, 1 rendered template alone, 2 the other listing order
-	Fresh    int               `json:"fresh"`  // parent only: number of additional processes that render the pair exactly once
+	Files    map[string]string          `json:"files"`    // rendered template + the templates of the history (hex name -> hex AST)
+	Siblings map[string]string          `json:"siblings"` // templates that are never rendered (hex relative path, may contain directories)
+	Render   string                     `json:"render"`
+	Data     json.RawMessage            `json:"data"`
+	Prefix   []c07Req                   `json:"prefix"`
+	Late     []c07Req                   `json:"late"`       // renders after r7, most of them kept unread
+	HoldR0   bool                       `json:"hold_first"` // one more render of the pair right after r0, read last of all
+	ReadSeed int                        `json:"read_seed"`  // order in which the kept readers are read: 0 oldest first, 1 newest first, else a permutation
+	ReadStep int                        `json:"read_step"`  // > 0: the kept readers are read round-robin, ReadStep bytes at a time
+	TFirst   bool                       `json:"t_first"`    // main layout: the rendered template is listed before its siblings (the other layout: after)
+	Funcs    map[string]json.RawMessage `json:"funcs"`      // function table of the pair's engines beyond the standard functions: name -> constant
+	Aliens   []c07Alien                 `json:"aliens"`     // engines with other function tables / template sets in the same process
+	Single   bool                       `json:"single"`
+	Layout   int                        `json:"layout"` // single mode: 0 main layout, 1 rendered template alone, 2 the other listing order
+	Fresh    int                        `json:"fresh"`  // parent only: number of additional processes that render the pair exactly once
+}
+
+// an engine instance of the process that is not one of the pair's: own function table, own template directory
+type c07Alien struct {
+	Funcs map[string]json.RawMessage `json:"funcs"` // beyond the standard functions: name -> constant the function returns
+	Files map[string]string          `json:"files"` // hex template name -> hex AST
+	First bool                       `json:"first"` // created and loaded before the pair's first engine (else: after r2, before the history)
+	Warm  []c07Req                   `json:"warm"`  // renders right after its load (read at once, reported like every alien render)
+}
+
+// c07Funcs: zero-argument template functions; every call builds its constant anew
+func c07Funcs(desc map[string]json.RawMessage) (map[string]flamingo.TemplateFunc, error) {
+	res := map[string]flamingo.TemplateFunc{}
+	for name, raw := range desc {
+		if _, err := buildData07(raw); err != nil {
+			return nil, err
+		}
+		raw := raw
+		res[name] = tplFunc{func() interface{} {
+			v, _ := buildData07(raw)
+			return v
+		}}
+	}
+	return res, nil
+}
+
+// render07 / keep07: an engine that did not load answers every request with class load_error
+func render07(e *pugjs.Engine, ctx context.Context, name string, data interface{}) renderResult {
+	if e == nil {
+		return renderResult{Class: clsLoadErr}
+	}
+	return safeRender(e, ctx, name, data)
+}
+
+func keep07(e *pugjs.Engine, ctx context.Context, name string, data interface{}, pre int) *c07Kept {
+	if e == nil {
+		return &c07Kept{done: true, res: renderResult{Class: clsLoadErr}}
+	}
+	return c07RenderKeep(e, ctx, name, data, pre)
 }
 
 // where the rendered template stands in the directory listings compileDir works through
@@ -242,6 +403,39 @@ type c07Listing struct {
 	Entries    int  `json:"entries"` // sibling entries compared with the rendered template's entry
 	TBeforeAll bool `json:"t_before_all"`
 	TAfterAll  bool `json:"t_after_all"`
+}
+
+// which alien engine rendered what
+type c07AlienReq struct {
+	Alien int
+	Req   c07Req
+}
+
+// c07AlienPlan: the renders by alien engines in the order in which a full process makes them - the
+// warm renders of the engines created first, those of the engines created before the history, then the
+// requests of the history and of the late phase that are addressed to an alien engine.
+func c07AlienPlan(c c07Case) []c07AlienReq {
+	var plan []c07AlienReq
+	if len(c.Aliens) == 0 {
+		return plan
+	}
+	for _, first := range []bool{true, false} {
+		for i, a := range c.Aliens {
+			if a.First == first {
+				for _, rq := range a.Warm {
+					plan = append(plan, c07AlienReq{i, rq})
+				}
+			}
+		}
+	}
+	for _, l := range [][]c07Req{c.Prefix, c.Late} {
+		for _, rq := range l {
+			if rq.On >= 100 {
+				plan = append(plan, c07AlienReq{(rq.On - 100) % len(c.Aliens), rq})
+			}
+		}
+	}
+	return plan
 }
 
 type c07Obs struct {
@@ -252,6 +446,8 @@ type c07Obs struct {
 	Untouched       bool              `json:"untouched"`        // caller's data deep-equals the pristine copy after all renders
 	PrefixUntouched bool              `json:"prefix_untouched"` // same for the data of the history renders
 	Fresh           []renderResult    `json:"fresh"`            // parent only: the single render of each additional process
+	Alien           []renderResult    `json:"alien"`            // renders by alien engines, in the order of the renders (warm renders first per engine)
+	AlienRef        []renderResult    `json:"alien_ref"`        // parent only: the same renders, each in a process of its own holding only that engine
 	FreshUntouched  bool              `json:"fresh_untouched"`
 	Main            c07Listing        `json:"main"`
 	Other           c07Listing        `json:"other"`
@@ -412,13 +608,14 @@ func c07WriteLayout(dir string, files map[string]string, sibs map[string]string,
 // ---- results that are read later ----------------------------------------------------------------
 
 type c07Kept struct {
-	rd   io.Reader
-	got  []byte
-	done bool
-	res  renderResult // class of the render (and, when done, what was read)
-	pair bool
-	req  c07Req
-	eng  int
+	rd    io.Reader
+	got   []byte
+	done  bool
+	res   renderResult // class of the render (and, when done, what was read)
+	pair  bool
+	alien bool
+	req   c07Req
+	eng   int
 }
 
 // c07RenderKeep calls Engine.Render and does NOT read the result (but the first pre bytes, if pre > 0).
@@ -527,10 +724,66 @@ func runC07(c c07Case) (obs c07Obs, err error) {
 	if err != nil {
 		return obs, err
 	}
-	if !reflect.DeepEqual(data, pristine) {
+	if !c07Same(data, pristine) {
 		return obs, fmt.Errorf("data description does not build reproducibly")
 	}
 	ctx := context.Background()
+	funcs, err := c07Funcs(c.Funcs)
+	if err != nil {
+		return obs, err
+	}
+	obs.Alien = []renderResult{}
+	obs.AlienRef = []renderResult{}
+
+	// alien engines: own function table, own template directory
+	aliens := make([]*pugjs.Engine, len(c.Aliens))
+	type aslot struct {
+		k *c07Kept
+		r renderResult
+	}
+	var alienSlots []aslot
+	var others []interface{} // data of the other renders and their pristine copies
+	mkAliens := func(first bool) error {
+		for i, a := range c.Aliens {
+			if a.First != first {
+				continue
+			}
+			af, err := c07Funcs(a.Funcs)
+			if err != nil {
+				return err
+			}
+			adir := filepath.Join(root, fmt.Sprintf("alien%d", i))
+			tree := map[string]string{}
+			for n, x := range a.Files {
+				tree["template/page/"+unhx(n)+".ast.json"] = unhx(x)
+			}
+			if err := os.MkdirAll(filepath.Join(adir, "template", "page"), 0o755); err != nil {
+				return err
+			}
+			if err := writeTree(adir, tree); err != nil {
+				return err
+			}
+			e := newEngine(adir, false, 0, af)
+			if cls, _ := safeLoad(e, ""); cls == clsOK {
+				aliens[i] = e
+			}
+			for _, rq := range a.Warm {
+				d, err := buildData07(rq.Data)
+				if err != nil {
+					return err
+				}
+				p, _ := buildData07(rq.Data)
+				others = append(others, d, p)
+				alienSlots = append(alienSlots, aslot{r: render07(aliens[i], ctx, unhx(rq.Render), d)})
+			}
+		}
+		return nil
+	}
+	if !c.Single {
+		if err := mkAliens(true); err != nil {
+			return obs, err
+		}
+	}
 
 	first := dir
 	if c.Single && c.Layout == 1 {
@@ -538,13 +791,13 @@ func runC07(c c07Case) (obs c07Obs, err error) {
 	} else if c.Single && c.Layout == 2 {
 		first = dirOther
 	}
-	e1 := newEngine(first, false, 0, nil)
+	e1 := newEngine(first, false, 0, funcs)
 	obs.Load, obs.Msg = safeLoad(e1, "")
 	if obs.Load != clsOK {
-		return obs, nil
+		e1 = nil
 	}
-	obs.R = append(obs.R, safeRender(e1, ctx, name, data)) // r0: first render of the process
-	obs.Untouched = reflect.DeepEqual(data, pristine)
+	obs.R = append(obs.R, render07(e1, ctx, name, data)) // r0: first render of the pair's engines (of the process, unless an alien engine came first)
+	obs.Untouched = c07Same(data, pristine)
 	obs.PrefixUntouched = true
 	obs.FreshUntouched = true
 	obs.Held = []renderResult{}
@@ -560,39 +813,43 @@ func runC07(c c07Case) (obs c07Obs, err error) {
 	var pairSlots []slot // one per additional render of the pair, in the order of the renders
 	if c.HoldR0 {
 		// the second render of the process: its reader stays unread until everything else is over
-		k := c07RenderKeep(e1, ctx, name, data, 0)
+		k := keep07(e1, ctx, name, data, 0)
 		k.pair = true
 		kept = append(kept, k)
 		pairSlots = append(pairSlots, slot{k: k})
 	}
-	obs.R = append(obs.R, safeRender(e1, ctx, name, data)) // r1: again, same engine, same data value
+	obs.R = append(obs.R, render07(e1, ctx, name, data)) // r1: again, same engine, same data value
 
-	mk := func(d string, what string) (*pugjs.Engine, error) {
-		e := newEngine(d, false, 0, nil)
-		if cls, msg := safeLoad(e, ""); cls != clsOK {
-			return nil, fmt.Errorf("%s does not load what the first engine loaded: %s", what, msg)
+	// a further engine of the pair (same function table); nil if it does not load
+	mk := func(d string) *pugjs.Engine {
+		e := newEngine(d, false, 0, funcs)
+		if cls, _ := safeLoad(e, ""); cls != clsOK {
+			return nil
 		}
-		return e, nil
+		return e
 	}
 	engines := []*pugjs.Engine{e1}
 	for i := 2; i <= 3; i++ {
-		e, err := mk(dir, fmt.Sprintf("engine %d", i))
-		if err != nil {
-			return obs, err
-		}
-		engines = append(engines, e)
+		engines = append(engines, mk(dir))
 	}
-	obs.R = append(obs.R, safeRender(engines[1], ctx, name, data)) // r2: second engine instance
+	obs.R = append(obs.R, render07(engines[1], ctx, name, data)) // r2: second engine instance
+	if err := mkAliens(false); err != nil {
+		return obs, err
+	}
 
 	// one render of the history / the late phase
-	var others []interface{} // data of the other renders and their pristine copies
 	step := func(rq c07Req, pool []*pugjs.Engine) error {
 		on := rq.On % len(pool)
 		if on < 0 {
 			on = 0
 		}
+		eng := pool[on]
+		alien := rq.On >= 100 && len(aliens) > 0
+		if alien {
+			eng = aliens[(rq.On-100)%len(aliens)]
+		}
 		n, d := name, data
-		if !rq.Pair {
+		if !rq.Pair || alien {
 			var err error
 			if d, err = buildData07(rq.Data); err != nil {
 				return err
@@ -601,18 +858,29 @@ func runC07(c c07Case) (obs c07Obs, err error) {
 			others = append(others, d, p)
 			n = unhx(rq.Render)
 		}
+		pre := 0
+		if rq.Hold == 2 && rq.Pre > 0 {
+			pre = rq.Pre
+		}
+		if alien {
+			if rq.Hold == 0 {
+				alienSlots = append(alienSlots, aslot{r: render07(eng, ctx, n, d)})
+			} else {
+				k := keep07(eng, ctx, n, d, pre)
+				k.alien = true
+				kept = append(kept, k)
+				alienSlots = append(alienSlots, aslot{k: k})
+			}
+			return nil
+		}
 		if rq.Hold == 0 {
-			r := safeRender(pool[on], ctx, n, d)
+			r := render07(eng, ctx, n, d)
 			if rq.Pair {
 				pairSlots = append(pairSlots, slot{r: r}) // (a render of the pair that is read at once)
 			}
 			return nil
 		}
-		pre := 0
-		if rq.Hold == 2 && rq.Pre > 0 {
-			pre = rq.Pre
-		}
-		k := c07RenderKeep(pool[on], ctx, n, d, pre)
+		k := keep07(eng, ctx, n, d, pre)
 		k.pair, k.req, k.eng = rq.Pair, rq, on
 		kept = append(kept, k)
 		if rq.Pair {
@@ -626,28 +894,19 @@ func runC07(c c07Case) (obs c07Obs, err error) {
 			return obs, err
 		}
 	}
-	obs.R = append(obs.R, safeRender(engines[2], ctx, name, data)) // r3: third engine, after the history
+	obs.R = append(obs.R, render07(engines[2], ctx, name, data)) // r3: third engine, after the history
 	// r4: freshly built equal data, on the first engine, after the history
 	fresh, _ := buildData07(c.Data)
-	obs.R = append(obs.R, safeRender(e1, ctx, name, fresh))
+	obs.R = append(obs.R, render07(e1, ctx, name, fresh))
 	// r5: an engine instance created only now
-	e4, err := mk(dir, "late engine")
-	if err != nil {
-		return obs, err
-	}
-	obs.R = append(obs.R, safeRender(e4, ctx, name, data))
+	e4 := mk(dir)
+	obs.R = append(obs.R, render07(e4, ctx, name, data))
 	// r6: an engine whose template directory holds the rendered template alone
-	eAlone, err := mk(dirAlone, "engine with the template alone")
-	if err != nil {
-		return obs, err
-	}
-	obs.R = append(obs.R, safeRender(eAlone, ctx, name, data))
+	eAlone := mk(dirAlone)
+	obs.R = append(obs.R, render07(eAlone, ctx, name, data))
 	// r7: an engine over the same files, listed in the other order
-	eOther, err := mk(dirOther, "engine over the other listing order")
-	if err != nil {
-		return obs, err
-	}
-	obs.R = append(obs.R, safeRender(eOther, ctx, name, data))
+	eOther := mk(dirOther)
+	obs.R = append(obs.R, render07(eOther, ctx, name, data))
 
 	// the late phase: renders whose readers are kept, interleaved with renders that are read at once
 	all := append(append([]*pugjs.Engine{}, engines...), e4, eAlone, eOther)
@@ -689,20 +948,27 @@ func runC07(c c07Case) (obs c07Obs, err error) {
 			obs.Held = append(obs.Held, sl.r)
 		}
 	}
+	for _, sl := range alienSlots {
+		if sl.k != nil {
+			obs.Alien = append(obs.Alien, sl.k.res)
+		} else {
+			obs.Alien = append(obs.Alien, sl.r)
+		}
+	}
 	// every other kept render once more, with freshly built equal data, read at once
 	for _, k := range kept {
-		if k.pair {
+		if k.pair || k.alien {
 			continue
 		}
 		d, err := buildData07(k.req.Data)
 		if err != nil {
 			return obs, err
 		}
-		obs.Pairs = append(obs.Pairs, [2]renderResult{k.res, safeRender(all[k.eng%len(all)], ctx, unhx(k.req.Render), d)})
+		obs.Pairs = append(obs.Pairs, [2]renderResult{k.res, render07(all[k.eng%len(all)], ctx, unhx(k.req.Render), d)})
 	}
-	obs.Untouched = reflect.DeepEqual(data, pristine) && reflect.DeepEqual(fresh, pristine)
+	obs.Untouched = c07Same(data, pristine) && c07Same(fresh, pristine)
 	for i := 0; i+1 < len(others); i += 2 {
-		if !reflect.DeepEqual(others[i], others[i+1]) {
+		if !c07Same(others[i], others[i+1]) {
 			obs.PrefixUntouched = false
 		}
 	}
@@ -716,6 +982,9 @@ func c07Counts(c c07Case) (held, pairs int) {
 	}
 	for _, l := range [][]c07Req{c.Prefix, c.Late} {
 		for _, rq := range l {
+			if rq.On >= 100 && len(c.Aliens) > 0 {
+				continue
+			}
 			if rq.Pair {
 				held++
 			} else if rq.Hold != 0 {
@@ -762,7 +1031,7 @@ func c07Child(self, tmp string, c c07Case) (obs c07Obs, err error) {
 				held, pairs = c07Counts(c)
 			}
 			obs = c07Obs{Load: clsOK, Untouched: true, PrefixUntouched: true, FreshUntouched: true, Msg: msg,
-				Held: []renderResult{}, Pairs: [][2]renderResult{}}
+				Held: []renderResult{}, Pairs: [][2]renderResult{}, Alien: []renderResult{}, AlienRef: []renderResult{}}
 			for i := 0; i < n; i++ {
 				obs.R = append(obs.R, renderResult{Class: "crash"})
 			}
@@ -771,6 +1040,11 @@ func c07Child(self, tmp string, c c07Case) (obs c07Obs, err error) {
 			}
 			for i := 0; i < pairs; i++ {
 				obs.Pairs = append(obs.Pairs, [2]renderResult{{Class: "crash"}, {Class: "crash"}})
+			}
+			if !c.Single {
+				for range c07AlienPlan(c) {
+					obs.Alien = append(obs.Alien, renderResult{Class: "crash"})
+				}
 			}
 			return obs, nil
 		}
@@ -790,22 +1064,46 @@ func c07Isolated(self, tmp string, c c07Case) (c07Obs, error) {
 		return c07Child(self, tmp, c)
 	}
 	obs, err := c07Child(self, tmp, c)
-	if err != nil || obs.Load != clsOK {
+	if err != nil {
 		return obs, err
 	}
+	plan := c07AlienPlan(c)
+	if len(obs.Alien) != len(plan) {
+		return obs, fmt.Errorf("the full process reports %d renders by alien engines, expected %d", len(obs.Alien), len(plan))
+	}
 	obs.Fresh = []renderResult{}
-	c.Single = true
-	c.Prefix, c.Late, c.HoldR0 = nil, nil, false
+	single := c
+	single.Single = true
+	single.Prefix, single.Late, single.HoldR0, single.Aliens = nil, nil, false, nil
 	for i := 0; i < n; i++ {
-		c.Layout = i % 3
-		o, err := c07Child(self, tmp, c)
+		single.Layout = i % 3
+		o, err := c07Child(self, tmp, single)
 		if err != nil {
 			return obs, err
 		}
-		if o.Load != clsOK || len(o.R) != 1 {
-			return obs, fmt.Errorf("a fresh process does not load what the first loaded: %s", o.Msg)
+		if len(o.R) != 1 {
+			return obs, fmt.Errorf("a fresh process reports %d renders: %s", len(o.R), o.Msg)
 		}
 		obs.Fresh = append(obs.Fresh, o.R[0])
+		obs.FreshUntouched = obs.FreshUntouched && o.Untouched
+	}
+	// every render by an alien engine once more: in a process that holds only that engine (its files, its
+	// function table) and renders only that request
+	obs.AlienRef = []renderResult{}
+	for _, ar := range plan {
+		a := c.Aliens[ar.Alien]
+		ref := c07Case{Files: a.Files, Funcs: a.Funcs, Render: ar.Req.Render, Data: ar.Req.Data, Single: true, TFirst: true}
+		if _, ok := a.Files[ar.Req.Render]; !ok {
+			return obs, fmt.Errorf("alien engine %d has no template %q", ar.Alien, unhx(ar.Req.Render))
+		}
+		o, err := c07Child(self, tmp, ref)
+		if err != nil {
+			return obs, err
+		}
+		if len(o.R) != 1 {
+			return obs, fmt.Errorf("an alien engine's own process reports %d renders: %s", len(o.R), o.Msg)
+		}
+		obs.AlienRef = append(obs.AlienRef, o.R[0])
 		obs.FreshUntouched = obs.FreshUntouched && o.Untouched
 	}
 	return obs, nil
